@@ -238,7 +238,7 @@ Next ==
   \/ \E K \in {{KA}, {KA2}, {KA, KA2}}, add \in {{}, {"a1"}, {"a2"}, {"b1"}}, v \in VerChoices(CurVer("A")) : UpdateTargets("A", K, add, v)
   \/ \E K \in {{KB}, {KA}}, add \in {{"a1"}, {"a2"}}, v \in VerChoices(CurVer("B")) : UpdateTargets("B", K, add, v)
   \/ \E K \in {{KA}, {KA, KA2}}, thr \in 1..2 : DelegAddRole(K, thr, IF CurVer("A") < MaxVer THEN CurVer("A") + 1 ELSE MaxVer)
-  \/ \E v \in {pub.ver.tg, pub.ver.tg + 1} : OwnerKeyOp("addkey", KA2, v) \/ OwnerKeyOp("removerole", 0, v)
+  \/ \E v \in {pub.ver.tg, pub.ver.tg + 1, pub.ver.tg + 2} : OwnerKeyOp("addkey", KA2, v) \/ OwnerKeyOp("removerole", 0, v)
                                               \/ \E k \in {KA, KA2} : OwnerKeyOp("removekey", k, v)
   \/ \E K \in {{KA}, {KA, KA2}}, v \in VerChoices(CurVer("A")) :
         HolderKeyOp("haddkey", KB2, K, v) \/ HolderKeyOp("hremoverole", 0, K, v)
